@@ -606,6 +606,9 @@ def check_uart_packet(args):
         return _fail("UARTDataPacket.unpack rejects a packet assembled through append(): %r" % (e,), check="append")
     got = [{"ipts": _ipts_vals(w.ipts), "pe": w.parity_error, "sub": w.subchannel, "data": bytes(w.payload).hex()} for w in q.uartwords]
     if got != ws:
+        if kind == "none" and ws and ws[-1]["data"] == "" and got == ws[:-1]:
+            return _fail("UART packet without time stamps: a LAST word that carries no data bytes is dropped by the decoder "
+                         "(%d words in, %d out)" % (len(ws), len(got)), check="roundtrip", field="uartwords", trailing_empty=True)
         return _fail("UART packet round trip: words %r decoded as %r" % (ws, got), check="roundtrip", field="uartwords")
     if q.pack() != b:
         return _fail("UART packet: re-encoding the decoded packet gives different bytes", check="roundtrip", field="bytes")
@@ -637,6 +640,9 @@ def check_mil_packet(args):
         return _fail("MILSTD1553DataPacket.unpack rejects a packet assembled through append(): %r" % (e,), check="append")
     got = [{"ipts": _ipts_vals(m.ipts), "bs": m.blockstatus, "gap": m.gaptimes, "data": bytes(m.message).hex()} for m in q.messages]
     if got != ms:
+        if ms and ms[-1]["data"] == "" and got == ms[:-1]:
+            return _fail("1553 packet: a LAST message that carries no data bytes is dropped by the decoder (%d messages in, %d out)" % (
+                len(ms), len(got)), check="roundtrip", field="messages", trailing_empty=True)
         return _fail("1553 packet round trip: messages %r decoded as %r" % (ms, got), check="roundtrip", field="messages")
     if q.msgcount != len(ms) or q.ttb != ttb:
         return _fail("1553 packet round trip changes msgcount/ttb: (%d,%d) -> (%d,%d)" % (len(ms), ttb, q.msgcount, q.ttb), check="roundtrip", field="csw")
@@ -921,7 +927,14 @@ def _c04_cases(ctx):
                 if kind != "none" and rng.random() < 0.5:
                     ws[-1]["data"] = ""          # with time stamps an empty last word is decodable
                 cases.append(("uart_packet", {"kind": kind, "endian": en, "words": ws}))
+            if kind == "none":                     # known finding K7: a last word without data (and without time stamp) is dropped
+                ws = [_uart_word_json(rng, kind, [2, 3], 13) for _ in range(rng.randrange(0, 3))] + [_uart_word_json(rng, kind, [0], 13)]
+                cases.append(("uart_packet", {"kind": kind, "endian": en, "words": ws}))
+                ws = [_uart_word_json(rng, kind, [0, 1], 13), _uart_word_json(rng, kind, [0, 3], 13), _uart_word_json(rng, kind, [2], 13)]
+                cases.append(("uart_packet", {"kind": kind, "endian": en, "words": ws}))     # empty words that are NOT last survive
     for kind in ("rtc", "ptp"):
+        ms = [{"ipts": ipts_json(rng, kind), "bs": rng.boundary(16), "gap": rng.boundary(16), "data": d} for d in (rng.bytes_(4).hex(), "")]
+        cases.append(("mil_packet", {"kind": kind, "ttb": 1, "msgs": ms}))                   # K7: a last message without data
         for cnt in list(range(1, 13)) * m:
             ms = [{"ipts": ipts_json(rng, kind), "bs": rng.boundary(16), "gap": rng.boundary(16),
                    "data": rng.bytes_(rng.choice([0, 1, 2, 3, 8, 64] if i < cnt - 1 else [1, 2, 3, 8, 64])).hex()} for i in range(cnt)]
